@@ -64,7 +64,10 @@ def impl_dir(parent, name, patterns):
 def model_dir(tree, name, patterns):
     import in_toto.settings as st
     eff = patterns or list(st.ARTIFACT_EXCLUDE_PATTERNS)
-    top = {name: ("d", tree)}
+    top = ("d", tree)
+    for comp in reversed(name.split("/")):
+        top = ("d", {comp: top})
+    top = top[1]
     cands = T.candidate_paths(top, ["dir:" + name, "."])
     m = core.driver().call({"op": "record", "root": T.model_node(top, top), "artifacts": ["dir:" + name],
                             "excl": T.exclusion_table(eff, cands), "follow": False, "normalize": False, "lstrip": []})
@@ -85,8 +88,11 @@ def documented_digest(tree, patterns):
 
 def one_case(rng, res):
     tree = gen_dir_tree(rng)
-    patterns = rng.choice([[], [], [], ["*.pyc"], ["sub"], ["*.txt"]])
-    name = rng.choice(["d", "my dir", "ü"])
+    # patterns apply to paths relative to the recorded directory: anchored ones (a slash at the start or inside) and
+    # ones that match a component of the directory's own location tell "relative to the directory" from anything else
+    patterns = rng.choice([[], [], [], ["*.pyc"], ["sub"], ["*.txt"], ["sub/deep"], ["/a"], ["/bar.txt", "/lib"], ["deep/*"],
+                           ["build"], ["loc*"], ["lib/**/x y"]])
+    name = rng.choice(["d", "my dir", "ü", "loc/build/out", "build", "x~/d"])
     variants = [("base", tree)]
     t2, edits = c19.edit_tree(rng, tree)
     variants.append(("edited:" + ",".join(edits), t2))
